@@ -66,6 +66,19 @@ CHECKS = {
             'C20_carried_exposed about the accessor functions the merge model itself uses; differential run of every Python accessor '
             '(target / source IDs, carried XML) and of the text inspect() prints, compact and pretty-printed.',
             'section 5 C20', 'Coq theorems on the accessor model + extracted-model differential run of accessors and inspect()'),
+    'C15': ('proof', 'Theorems C15_stories_no_raise_and_agree (with numeric timing data the story listing does not raise and is the <story> '
+            'children in order - any subset of optional metadata), C15_absent_is_none, C15_items_agree, C15_duration_absent_is_none, '
+            'C15_wf_reachable (well-formedness is an invariant of every history of schema-shaped messages). Correspondence: every '
+            'documented read accessor on random running orders and on states reached by merges, an exception being a value of the report.',
+            'section 5 C15', 'Coq theorems on the accessor model + extracted-model differential run of all accessors'),
+    'C16': ('proof', 'Theorems C16_duration, C16_offsets (offset of the k-th story = sum of the durations before it, any number of stories, '
+            'dict semantics with unique IDs), C16_stories_table, C16_ro_duration, C16_start, C16_end, C16_ro_end over exact arithmetic. '
+            'PARTIAL: binary64 rounding is not modelled; dyadic decimals only. Correspondence as exact integers plus an arithmetic oracle.',
+            'section 5 C16', 'Coq theorems over exact integer arithmetic + extracted-model differential run'),
+    'C17': ('proof', 'Theorems C17_body, C17_script (exactly the non-empty, non-technical paragraphs, stripped, in order), C17_strip, '
+            'C17_ro_concat. Correspondence on paragraphs of every bracket / white-space shape and on roStorySend bodies; the white-space '
+            'table is compared with str.isspace over all 0x110000 code points on every run.',
+            'section 5 C17', 'Coq theorems on the script/body model + extracted-model differential run + exhaustive table comparison'),
 }
 
 
